@@ -3,6 +3,8 @@ module gethverif/harness
 go 1.24.0
 
 require (
+	github.com/consensys/gnark-crypto v0.18.1
+	github.com/crate-crypto/go-eth-kzg v1.5.0
 	github.com/ethereum/c-kzg-4844/v2 v2.1.8
 	github.com/ethereum/go-ethereum v0.0.0
 	github.com/golang/snappy v1.0.1-0.20260716114414-9ae09f520e93
@@ -28,8 +30,6 @@ require (
 	github.com/cockroachdb/redact v1.1.5 // indirect
 	github.com/cockroachdb/swiss v0.0.0-20251224182025-b0f6560f979b // indirect
 	github.com/cockroachdb/tokenbucket v0.0.0-20230807174530-cc333fc44b06 // indirect
-	github.com/consensys/gnark-crypto v0.18.1 // indirect
-	github.com/crate-crypto/go-eth-kzg v1.5.0 // indirect
 	github.com/deckarep/golang-set/v2 v2.6.0 // indirect
 	github.com/decred/dcrd/dcrec/secp256k1/v4 v4.0.1 // indirect
 	github.com/emicklei/dot v1.6.2 // indirect
